@@ -18,7 +18,7 @@ CHECKS = {
  "C08": ("other", "static analysis: clang-query AST rules (constexpr closure, false const/pure attributes) over the instantiated driver TU; " + AI + "; summary equivalence of the -std=c++17 and -std=c++20 builds", "constexpr closure in K17A/K20; c++17 vs c++20 summary equivalence of every wrapper; fmuladd contraction safety; no UB (optimisation-level independence). NOT decided: the two sqrt algorithms differ by <= 1 ulp; code generators trusted. 10 recorded findings (lookup-table family not constexpr)", "5 (C08), 6, 7"),
  "C09": ("proof", AI + "; range-reduction structure (congruence, window, abstract re-execution); cell-wise interval automatic differentiation of the idealised result expression with a rounding budget, against a big-integer interval oracle", "exact periodicity on |x| < 2^46; accuracy 4 ulp + r^9/9! and |result| <= 1 for every |x| <= 2 pi (9652 cells); cos through sin(x + pi/2): every clause decided", "11.1, 11.7"),
  "C10": ("proof", AI + "; summary equivalence for oddness; range-reduction structure for the period; pole paths; cell-wise interval automatic differentiation of the idealised result expression with a rounding budget against an interval oracle", "tan odd, period phi, NaN exactly at the pole, and |tan_lib - tan| <= 2.5 ulp (1+tan^2) on |x| <= pi (4321 cells + 192 near-pole arguments): every clause decided", "11.1, 11.7"),
- "C11": ("other", AI + "; summary equivalence (oddness); per-quadrant boxes with value partitioning of the quotient; cell-wise interval automatic differentiation of the idealised result expression against an interval oracle; abstract re-execution of atan / its series on the quotient symbol; linear bound of the quotient", "atan odd; |atan_lib - atan| <= 5e-5 on all of [0,2^63) (17469 cells); atan2 axis values, (0,0) NaN, quadrant signs, and atan2 == atan(q) + quadrant offset hence within 8e-5; |atan| <= fixpidiv2 by series-of-quotient composition (decided). NOT decided: near-monotonicity", "5 (C11), 6"),
+ "C11": ("proof", AI + "; summary equivalence (oddness); per-quadrant boxes with value partitioning of the quotient; cell-wise interval automatic differentiation of the idealised result expression against an interval oracle; abstract re-execution of atan / its series on the quotient symbol; linear bound of the quotient", "atan odd; |atan_lib - atan| <= 5e-5 on all of [0,2^63) (17469 cells); atan2 axis values, (0,0) NaN, quadrant signs, and atan2 == atan(q) + quadrant offset hence within 8e-5; |atan| <= fixpidiv2 by series-of-quotient composition; x <= y => atan x <= atan y + 2 from exact cell-end values, rounding budgets and exact segment-end results: every clause decided", "5 (C11), 6"),
  "C12": ("other", AI + "; region checks on in-program relations; cell-wise interval automatic differentiation of the idealised result expression (incl. the floating sqrt) against an interval oracle", "NaN exactly for |x| > 1 (all builds); asin odd, acos within 1 ulp of pi/2 - asin, and the 2-ulp/4-ulp backward/forward accuracy clause (std::sqrt builds; 1317 cells + 160 arguments near 1). NOT decided: monotonicity; the relations and accuracy under the abacus build", "5 (C12), 6"),
  "C13": ("other", AI + "; loop unrolling with control-aware joins; shape lemma on the value-numbered float expression", "NaN below 0, 0 at 0, result in [0,2^16] on the domain for both algorithms (decided); < 1 ulp, monotone, exact squares for the std::sqrt algorithm by shape lemma. NOT decided: those three clauses for the abacus loop", "5 (C13), 6"),
  "C14": ("other", AI + "; summary equivalence (symmetry); per-instruction unsigned-wrap tracking", "symmetry (std::sqrt builds), never NaN/negative, no intermediate wrap in hypot's own arithmetic (one recorded finding: left-shift branch). NOT decided: 2 ulp / 1.5e-4 accuracy; symmetry under the abacus build", "5 (C14), 6, 7"),
